@@ -152,8 +152,11 @@ def body_history(case, rec):
     rounds = case["rounds"]
     rec.note(case, len(rounds) >= 2 and any(nontrivial_names(r) for r in rounds), {"rounds_%d" % len(rounds)})
     asm = Assembly("a")
-    for n in rounds[0]:
-        asm.add_scaffold(Scaffold(n, rank=1))
+    ranks = case.get("ranks") or [1] * len(rounds[0])
+    for n, rk in zip(rounds[0], ranks):
+        asm.add_scaffold(Scaffold(n, rank=rk))
+    if case.get("ranks"):
+        return history_with_ranks(case, rec, asm)
     for k, names in enumerate(rounds):
         for s, n in zip(list(asm.scaffolds) if k == 0 else objs, names):
             s.name = n
@@ -167,6 +170,27 @@ def body_history(case, rec):
             raise Violation(f"round {k + 1}: scaffolds renamed to {names} sort as {got}; fresh scaffolds with these names sort as {fresh}")
         if [key(n) for n in got2] != [key(n) for n in fresh]:
             raise Violation(f"round {k + 1}: smart sort after renaming gives {got2}; fresh scaffolds sort as {fresh}")
+
+
+def history_with_ranks(case, rec, asm):
+    """
+    ranked scaffolds: smart sort (the output order), then the by-name QUERY, then the output order is read again -
+    rank still takes precedence, i.e. asking for the by-name list does not reorder the assembly
+    """
+    for k, names in enumerate(case["rounds"]):
+        objs = list(asm.scaffolds)
+        for s, n in zip(objs, names):
+            s.name = n
+        must(asm.smart_sort_scaffolds, what="smart_sort_scaffolds")
+        before = [(s.rank, s.name) for s in asm.scaffolds]
+        if [(r, key(n)) for r, n in before] != sorted((r, key(n)) for r, n in before):
+            raise Violation(f"round {k + 1}: smart sort gives {before}: not ordered by rank, then name")
+        by_name = must(asm.scaffolds_sorted_by_name, what="scaffolds_sorted_by_name")
+        if [key(s.name) for s in by_name] != sorted(key(n) for _r, n in before):
+            raise Violation(f"round {k + 1}: by-name list {[s.name for s in by_name]} is not in key order")
+        after = [(s.rank, s.name) for s in asm.scaffolds]
+        if after != before:
+            raise Violation(f"round {k + 1}: asking for the by-name list changed the assembly's output order from {before} to {after}")
 
 
 def body_pipeline(case, rec):
@@ -185,6 +209,56 @@ def body_pipeline(case, rec):
         keyf = lambda n: [int(x) if x.isdigit() else x for x in re.split(r"(\d+)", n)]  # noqa: E731
         if names != sorted(names, key=keyf):
             raise Violation(f"assembly {k}: unplaced scaffolds are not written in numeric-aware name order: {names}")
+
+
+def body_files(case, rec):
+    """
+    Object order in the FILES pretext-to-asm writes. Each assembly the remapper returns must be in (rank, name key)
+    order and each file must list its assembly's scaffolds in that order; in Primary mode the all_haplotigs file is the
+    other curated assemblies one after the other, each in its own (rank, name key) order.
+    """
+    from vf import ref, remap
+
+    try:
+        res = remap.run_api(case)
+    except Exception:  # noqa: BLE001 -- tagging errors are C09's / C10's subject
+        rec.note(case, False, {"error"})
+        return
+    per_asm = {}
+    for k, asm in res.assemblies.items():
+        order = [(s.rank, s.name) for s in asm.scaffolds]
+        if [(r, key(n)) for r, n in order] != sorted((r, key(n)) for r, n in order):
+            raise Violation(f"assembly {k}: scaffolds are not in (rank, numeric-aware name) order: {order}")
+        per_asm[k] = (asm, [n for _r, n in order])
+    want = {}
+    if "Primary" in per_asm:
+        want["x.1.primary.curated.agp"] = per_asm["Primary"][1]
+        merged = [n for k, (asm, names) in per_asm.items() if k != "Primary" and getattr(asm, "curated", False) for n in names]
+        if merged:
+            want["x.1.all_haplotigs.curated.agp"] = merged
+    elif None in per_asm and len([k for k, (a, _n) in per_asm.items() if getattr(a, "curated", False)]) == 1:
+        want["x.1.primary.curated.agp"] = per_asm[None][1]
+    ranks_present = {r for _a, (asm, _n) in per_asm.items() for r in [s.rank for s in asm.scaffolds]}
+    rec.note(case, len(ranks_present) >= 2 and bool(want), {"primary_mode"} if "Primary" in per_asm else {"plain"})
+    if not want:
+        return
+    d = remap.scratch_dir("vf-c20-")
+    try:
+        (d / "input.agp").write_text(remap.input_text(case, "agp"))
+        (d / "map.agp").write_text(remap.map_agp_text(case))
+        (d / "out").mkdir()
+        r = remap.run_cli_inprocess(["-a", d / "input.agp", "-p", d / "map.agp", "-o", d / "out" / "x.1.agp", "-c", case["prefix"]])
+        if r.exit_code != 0:
+            raise Violation(f"pretext-to-asm failed although the API run completed: {r.exception!r}")
+        for fname, names in want.items():
+            f = d / "out" / fname
+            if not f.exists():
+                raise Violation(f"{fname} was not written; files: {sorted(x.name for x in (d / 'out').iterdir())}")
+            got = [n for n, _rows in ref.read_agp(f.read_text())[1]]
+            if got != names:
+                raise Violation(f"{fname}: objects are written in the order {got}, the assemblies' (rank, name) order is {names}")
+    finally:
+        remap.rmtree(d)
 
 
 @st.composite
@@ -294,7 +368,10 @@ def history_cases(draw):
             rounds.append([f"{pre}{k}" for k in nums])
         else:
             rounds.append([draw(name()) for _ in range(n)])
-    return {"rounds": rounds}
+    case = {"rounds": rounds}
+    if draw(st.integers(0, 2)) == 0:
+        case["ranks"] = [draw(st.integers(1, 3)) for _ in range(n)]
+    return case
 
 
 SUBS = [
@@ -304,6 +381,11 @@ SUBS = [
         budget={"quick": 8000, "thorough": 100000}, desc="metamorphic: decimal value order, I<II<III<IV, unlocs after their chromosome, rank before name"),
     Sub("pipeline", kind="hyp", strategy=pipeline_cases, body=body_pipeline,
         budget={"quick": 4000, "thorough": 60000}, desc="order of unplaced scaffolds written by the remapper for maps without a painted scaffold (3-14 scaffolds in drawn input and map order)"),
+    Sub("files", kind="hyp", strategy=lambda: st.one_of(
+            __import__("vf.gen", fromlist=["x"]).tagged_case(max_scaffolds=6, max_contigs=3, two_haplotypes=True, primary_mode=True, many_painted=True, unprefixed_in_primary=True),
+            __import__("vf.gen", fromlist=["x"]).tagged_case(max_scaffolds=6, max_contigs=3, two_haplotypes=False, many_painted=True)),
+        body=body_files, shrink=False,
+        budget={"quick": 320, "thorough": 4000}, desc="object order in the files pretext-to-asm writes (primary file; in Primary mode the merged all_haplotigs file) = (rank, name key) order of the source assemblies"),
     Sub("history", kind="hyp", strategy=history_cases, body=body_history,
         budget={"quick": 6000, "thorough": 100000}, desc="sort / rename the same scaffold objects / sort again: order depends on current names only"),
     Sub("small_scope", kind="enum", cases=small_scope_cases, body=body_small, exhaustive=True,
